@@ -14,9 +14,8 @@ impl FieldParser {
 impl Data {
 //@ fn expanded variable_versions::v9 /impl<'nom> Data/ parse_be
 //@   generics: <'nom>
-//@   rules: R7
+//@   rules: R9b R7
 //@   contract: stubs/v9_data_parse.rs
-//@   closure 0: i: &'nom [u8] | -> (o: IResult<&'nom [u8], Records>) ensures parser.templates@.contains_key(flowset_id) ==> v9_records_post(i, parser.templates@[flowset_id], o)
 //@   ensures: r is Ok && old(parser).templates@.contains_key(flowset_id) ==> ({
 //@           let t = old(parser).templates@[flowset_id];
 //@           let (rows, rest) = recs_spec(t.fields@, orig_i@, rec_count(t.fields@, orig_i@));
